@@ -1198,6 +1198,14 @@ def simp(v):
                 return [x]
             return [("fmt", x, None, -1)]
         return simp(("fstr", tuple(parts(v[2]) + parts(v[3]))))
+    # getattr(x, "name") is x.name
+    if k == "call" and v[1] == ("global", "getattr") and len(v[2]) == 2 and not v[3] and v[2][1][0] == "const" and isinstance(v[2][1][1], str) \
+            and v[2][1][1].isidentifier():
+        return ("attr", v[2][0], v[2][1][1])
+    # filter(None, <literal sequence>) keeps the truthy elements: decided when every element's truthiness is visible from its shape
+    if k == "call" and v[1] == ("global", "filter") and len(v[2]) == 2 and not v[3] and v[2][0] == ("const", None) and v[2][1][0] in ("list", "tuple") \
+            and all(e[0] != "star" and truthy(e) is not None for e in v[2][1][1]):
+        return ("list", tuple(e for e in v[2][1][1] if truthy(e)))
     if k == "item" and v[1][0] in ("tuple", "list") and isinstance(v[2], int) and not any(e[0] == "star" for e in v[1][1]):
         if -len(v[1][1]) <= v[2] < len(v[1][1]):
             return v[1][1][v[2]]
